@@ -88,3 +88,25 @@ Theorem C20_export_access_old_refuted :
     value_of L st (SMod Possibility (SMod Possibility (SAtom 0))) 0 = Val VF.
 Proof. exact export_access_old_refuted. Qed.
 Print Assumptions C20_export_access_old_refuted.
+
+(* after every history of API calls followed by finish() as coded now, the hypotheses of
+   export_faithful hold and — for EVERY access class, SerialAccess (D) included — the exported
+   worlds are exactly the worlds of R and the exported access pairs exactly R *)
+From PT Require Import Sem.ModelRun Sem.ReachProofs.
+Theorem C20_export_faithful_history L cord pord os st :
+  (ml_classical L = true -> val_ok L VT = true) -> forallb (op_ok L) os = true ->
+  (forall st0, apply_ops L init_state os = Some st0 -> forall c, In c cord -> In c (s_consts st0)) ->
+  run L cord pord os = Some st ->
+  state_wfb L st = true /\ s_finished st = true /\
+  (ml_modal L = true ->
+   (forall w, In w (x_worlds (export L st)) <-> In w (aw (s_R st))) /\
+   (forall a b, In (a, b) (x_access (export L st)) <-> In (a, b) (ap (s_R st)))).
+Proof.
+  intros CT OK Hc Hr.
+  destruct (run_wf L cord pord os st CT OK Hc Hr) as [[WF [AW [F Sub]]] _].
+  split; [exact WF|]. split; [exact F|].
+  intro M. destruct (export_worlds L st M) as [_ [_ W]]. split.
+  - intro w. rewrite W. symmetry. apply Sub.
+  - apply (export_access_exact L st M AW). intros w Hw. apply Sub. exact Hw.
+Qed.
+Print Assumptions C20_export_faithful_history.
